@@ -87,22 +87,28 @@ package services
 // Each getter: the object that is read lives in the reader's namespace unless
 // the key of *that* resource kind allows it; the read is tracked first.
 //@ func (*c).GetTLSSecretPath
-//@   props C09 C15
+//@   props C09 C15 C01
 //@   requires cfg: c.dynconfig != nil
+//@   at call TrackRefName#1 assert link: $arg1 == track && $arg2 == convtypes.ResourceSecret && $arg3 == namespace + "/" + name
+//@   at call getCertificate#1 assert same: $arg1 == namespace && $arg2 == name
 //@   at call getCertificate#1 assert own-bit: defaultNamespace == "" || $arg1 == defaultNamespace || c.dynconfig.CrossNamespaceSecretCertificate
 //@   at call getCertificate#1 assert tracked: calls(TrackSecret) == 1
 //@ end
 
 //@ func (*c).GetCASecretPath
-//@   props C09
+//@   props C09 C01
 //@   requires cfg: c.dynconfig != nil
+//@   at call TrackRefName#1 assert link: $arg1 == track && $arg2 == convtypes.ResourceSecret && $arg3 == namespace + "/" + name
+//@   at call getCertificate#1 assert same: $arg1 == namespace && $arg2 == name
 //@   at call getCertificate#1 assert own-bit: defaultNamespace == "" || $arg1 == defaultNamespace || c.dynconfig.CrossNamespaceSecretCA
 //@   at call getCertificate#1 assert tracked: calls(TrackSecret) == 1
 //@ end
 
 //@ func (*c).GetPasswdSecretContent
-//@   props C09
+//@   props C09 C01
 //@   requires cfg: c.dynconfig != nil
+//@   at call TrackRefName#1 assert link: $arg1 == track && $arg2 == convtypes.ResourceSecret && $arg3 == namespace + "/" + name
+//@   at call Get#1 assert same: $arg2.Namespace == namespace && $arg2.Name == name
 //@   at call Get#1 assert own-bit: defaultNamespace == "" || $arg2.Namespace == defaultNamespace || c.dynconfig.CrossNamespaceSecretPasswd
 //@   at call Get#1 assert tracked: calls(TrackSecret) == 1
 //@ end
@@ -192,4 +198,22 @@ package services
 //@ func (*c).GetGatewayA2
 //@   props C10
 //@   ensures valid: result.1 == nil && result.0 != nil ==> calls(IsValidGwA2) == 1 && last(IsValidGwA2)
+//@ end
+
+// ---------------------------------------------------------------------------
+// C01 — every pod the selector lists is linked to the reader, whatever its
+// terminating status, so a pod change re-syncs the backend
+
+//@ count TrackPod = (types.Tracker).TrackRefName
+//@ func isTerminatingPod
+//@   props C01
+//@   requires svc != nil && pod != nil
+//@   modifies nothing
+//@ end
+//@ func (*c).GetTerminatingPods
+//@   props C01
+//@   requires c != nil && service != nil
+//@   at call TrackRefName#1 assert link: $arg1 == track && $arg2 == convtypes.ResourcePod && $arg3 == list.Items[i].Namespace + "/" + list.Items[i].Name
+//@   loop 1 invariant all: 0 <= $idx(1) && $idx(1) <= len(list.Items) && calls(TrackPod) == $idx(1)
+//@   lemma every: result.1 == nil ==> calls(TrackPod) == len(list.Items)
 //@ end
